@@ -39,14 +39,20 @@ def plan(tier, seed):
     n = 32 if tier == "quick" else 250
     specs = [{"seed": seed, "i": i, "tier": tier} for i in range(n)]
     specs += [{"seed": seed, "i": i, "tier": tier, "backlog": True} for i in range(2 if tier == "quick" else 8)]
+    specs += [{"seed": seed, "i": i, "tier": tier, "slow": True} for i in range(4 if tier == "quick" else 24)]
     return specs
 
 
-def run_once(plan_, nprod, nmsg, cycles, concurrent_stop, failmask, second_writer=False):
+def run_once(plan_, nprod, nmsg, cycles, concurrent_stop, failmask, second_writer=False, slow=False):
     tape = Tape()
     calls = [0]
+    release = [not slow]
 
     def dest(msg):
+        if not release[0]:
+            # an arbitrarily slow destination: stalls until the 'clock' thread, whose sleep outlasts every timeout in the
+            # code under test, lets it go on
+            sched.wait_until(lambda: release[0])
         i = calls[0]
         calls[0] += 1
         if msg.get("w"):
@@ -118,6 +124,12 @@ def run_once(plan_, nprod, nmsg, cycles, concurrent_stop, failmask, second_write
     workers = {"S": controller}
     for p in range(nprod):
         workers["P%d" % p] = producer(p)
+    if slow:
+        def clock():
+            sched.sleep()
+            release[0] = True
+            sched.notify()
+        workers["K"] = clock
     st, errs = sched.run_schedule(plan_, workers, timeout=90.0)
     for n, e in errs.items():
         problems.append("thread %s raised %r" % (n, e))
@@ -215,6 +227,28 @@ def run_case(spec):
     sched.instrument([logwriter])
     if spec.get("backlog"):
         run_backlog(spec, res)
+        return res
+    if spec.get("slow"):
+        # stopService must wait for a destination however slow it is: the clock thread K (lowest priority) wakes the stalled
+        # destination only after every timed wait of the code under test has expired
+        r2 = random.Random("%s:C19:slow:%d" % (spec["seed"], spec["i"]))
+        nprod, nmsg = 1, r2.choice([1, 2, 3])
+        names = ["S", "P0", "dyn1", "dyn2", "K"]
+        for order in ([names] + [r2.sample(names[:-1], 4) + ["K"] for _ in range(3)]):
+            st, tape, idents, problems = run_once({"order": order, "changes": []}, nprod, nmsg, 1, False, set(), slow=True)
+            res["evals"] += 1
+            res["counters"]["slow_destination_runs"] = res["counters"].get("slow_destination_runs", 0) + 1
+            if st["deadlock"]:
+                problems.append("writer threads deadlocked with a slow destination: %s" % st["deadlock"])
+            elif st["aborted"]:
+                res["inconclusive"] = "slow-destination schedule abandoned: %s" % st["aborted"]
+                continue
+            else:
+                judge(tape, idents, nprod, nmsg, 1, set(), problems)
+            res["nontrivial"].append(h(["slow", order, nmsg]))
+            if problems:
+                res["violations"].append({"msg": problems[0], "mech": None, "detail": {"part": "slow destination", "order": order, "problems": problems[:4]}})
+                break
         return res
     nprod = rng.choice([1, 1, 2, 3])
     nmsg = rng.choice([1, 2, 3]) if nprod > 1 else rng.choice([1, 2, 4, 8])
